@@ -373,6 +373,12 @@ def r03_1_apply_protocol(ctx: Ctx) -> None:
     )
     f = m.func(UNARY, "UnaryOperation.apply")
     tgt = [p for p in f.params if p != "self"][0]
+    done_v = None
+    for n in ast.walk(f.node):
+        if isinstance(n, ast.Assign) and isinstance(n.value, ast.Call) and call_attr(n.value) == "backtrack_unary" and isinstance(n.targets[0], ast.Tuple) and len(n.targets[0].elts) >= 2:
+            done_v = src(n.targets[0].elts[1])
+    if done_v is None:
+        raise AnalysisError("UnaryOperation.apply no longer unpacks (result, done, messages) from backtrack_unary")
     for i, p in enumerate(ctx.paths(f)):
         inst = f"apply:path{i}"
         facts = path_facts(p)
@@ -388,10 +394,10 @@ def r03_1_apply_protocol(ctx: Ctx) -> None:
         transfers = [(j, c) for j, c in calls if call_attr(c) in ("transferred_to", "transfer")]
         # `done` on this path: False unless bound from backtrack_unary
         env = env_at(p)
-        done_b = env.get("done")
+        done_b = env.get(done_v)
         done_known_false = isinstance(done_b, ast.Constant) and done_b.value is False
-        not_done = has_fact(facts, "TRUTH", ("done",), False)
-        is_done = has_fact(facts, "TRUTH", ("done",), True)
+        not_done = has_fact(facts, "TRUTH", (done_v,), False)
+        is_done = has_fact(facts, "TRUTH", (done_v,), True)
         problem = None
         if no_backtrack and backs:
             problem = "backtrack_unary is called although backtrack is false"
